@@ -42,7 +42,7 @@ type c13Case struct {
 	Ops   []c13Op `json:"ops"`
 }
 
-var c13Faults = []string{"", "", "", "state-is-client-address", "unknown-state", "other-instance-state", "state-of-other-jar", "refuse", "no_id_token", "bad_sig", "alg_none", "hs256_secret", "wrong_iss", "wrong_aud", "expired", "expired_20s", "expired_5s", "no_username", "nonstring_username"}
+var c13Faults = []string{"", "", "", "redeemed-code", "state-is-client-address", "unknown-state", "other-instance-state", "state-of-other-jar", "refuse", "no_id_token", "bad_sig", "alg_none", "hs256_secret", "wrong_iss", "wrong_aud", "expired", "expired_20s", "expired_5s", "no_username", "nonstring_username"}
 
 func genC13(t *rapid.T) c13Case {
 	c := c13Case{Store: rapid.SampledFrom([]string{"cookie", "file"}).Draw(t, "store")}
@@ -55,7 +55,7 @@ func genC13(t *rapid.T) c13Case {
 		case k <= 6:
 			op.Op = "login"
 			op.Fault = rapid.SampledFrom(c13Faults).Draw(t, "fault")
-			op.User = rapid.SampledFrom([]string{"alice", "bob@example.com", "Zoë Ünïcode", "carol"}).Draw(t, "user")
+			op.User = rapid.SampledFrom([]string{"alice", "bob@example.com", "Zoë Ünïcode", "carol", "alice ", " bob@example.com"}).Draw(t, "user")
 			op.Claim = rapid.SampledFrom([]string{"preferred_username", "preferred_username", "unique_name", "upn", "username"}).Draw(t, "claim")
 		case k == 7 && c.NTLM && rapid.Bool().Draw(t, "gatewayAuth"):
 			// correct NTLM credentials on the tunnel endpoint, presenting this browser session's cookie: that
@@ -116,7 +116,8 @@ func runC13(c c13Case) *Violation {
 		return viol("bin/start", "%v", err)
 	}
 	jars := []*c13Jar{{b: newBrowser()}, {b: newBrowser()}, {b: newBrowser()}}
-	var issued []string // states this instance handed out
+	var issued []string   // states this instance handed out
+	var redeemed []string // codes the identity provider has exchanged in this run
 	for i, op := range c.Ops {
 		j := jars[op.Jar]
 		what := fmt.Sprintf("op %d: jar %d %s %s", i, op.Jar, op.Op, op.Fault)
@@ -161,6 +162,14 @@ func runC13(c c13Case) *Violation {
 				spec.Fault, good = op.Fault, false
 			}
 			code := w.IdP.NewCode(spec)
+			if op.Fault == "redeemed-code" {
+				// own, fresh state - but a code some earlier login of this run has already redeemed (the provider exchanges a code once)
+				spec.Fault, good = "", false
+				code = "code-never-issued"
+				if len(redeemed) > 0 {
+					code = redeemed[len(redeemed)-1]
+				}
+			}
 			before := ""
 			if ck := sessionCookieOf(j.b, in); ck != nil {
 				before = ck.Value
@@ -177,6 +186,7 @@ func runC13(c c13Case) *Violation {
 					j.preLogin = before
 				}
 				j.auth, j.user, j.unspec, j.broken = true, op.User, false, false
+				redeemed = append(redeemed, code)
 			}
 			// how a failing callback is answered is not part of the statement; what matters is checked right below:
 			// the session must not be served a connection file afterwards
@@ -259,8 +269,8 @@ func runC13(c c13Case) *Violation {
 			if !ok {
 				return viol("c13/file-unparseable", "%s: connection file does not parse", what)
 			}
-			if got := rdpString(m, "username"); got != j.user {
-				return viol("c13/wrong-user", "%s: the session logged in as %q, the file says %q", what, j.user, got)
+			if got := rdpString(m, "username"); got != strings.TrimSpace(j.user) || !strings.Contains(r.Body, "username:s:"+j.user+"\r\n") {
+				return viol("c13/wrong-user", "%s: the session logged in as %q, the file says %q (line-exact comparison)", what, j.user, got)
 			}
 		default:
 			if j.auth && !j.unspec {
